@@ -234,6 +234,11 @@ func ParseBufferFullPolicy(s string) (BufferFullPolicy, error) {
 	}
 }
 
+// maxAsyncBufferSize bounds the buffer of an AsyncLogger. A larger configured
+// value is reported as an error by Start instead of panicking (or exhausting
+// memory) in make(chan).
+const maxAsyncBufferSize = 1 << 24
+
 // AsyncLogger is an asynchronous logger that buffers events
 // and processes them in a dedicated background goroutine.
 type AsyncLogger struct {
@@ -259,6 +264,9 @@ func (c *AsyncLogger) GetDiscardCounter() int64 {
 func (c *AsyncLogger) Start() error {
 	if c.BufferSize < 100 {
 		return errutil.Explain(nil, "bufferSize is too small")
+	}
+	if c.BufferSize > maxAsyncBufferSize {
+		return errutil.Explain(nil, "bufferSize is too large")
 	}
 
 	c.buf = make(chan any, c.BufferSize)
